@@ -170,6 +170,20 @@ class Gen:
             ])()
             d[member] = nested if r.random() < 0.6 else [nested]
         if r.random() < 0.2:
+            # closed-set class dicts as the VALUE of an exception attribute whose name the exception type treats specially (args has a
+            # setter that iterates its value; __cause__ / __context__ / __traceback__ / __dict__ are type-checked slots)
+            name = r.choice(["args", "args", "__cause__", "__context__", "__dict__", "__notes__", "__traceback__", "note", "_pyroTraceback", "with_traceback"])
+            nested = r.choice([
+                {"__class__": "Pyro5.client.Proxy", "state": ["PYRO:victim@127.0.0.1:9", [], [], [], "hello", None]},
+                {"__class__": "Pyro5.client.Proxy", "state": ["PYRO:victim@./u:/nonexistent-c04-sock", [], [], [], "hello", None]},
+                {"__class__": "Pyro5.core.URI", "state": ["PYRO", "obj", None, "127.0.0.1", 9]},
+                {"__class__": "ValueError", "__exception__": True, "args": ["inner"]},
+            ])
+            if not isinstance(d.get("attributes"), dict):
+                d["attributes"] = {}
+            d["attributes"] = dict(d["attributes"])
+            d["attributes"][name] = nested if r.random() < 0.7 else [nested]
+        if r.random() < 0.2:
             d[r.choice(["extra", "_pyroDaemon", "__init__", "object"])] = self.value(depth, inner_rec)
         return d
 
